@@ -274,7 +274,14 @@ def check_wire(ctx):
     sv = got.get("name")
     okv = sv is not None and canon(sv.value) == canon(parse("xu.with_unit(pm.Normal(name, 0.0, sigma_v[name].value), sigma_v[name].unit)"))
     lp = A.enclosing(sv, (ast.For,)) if sv is not None else None
-    okv = okv and lp is not None and canon(lp.iter) == canon(parse("enumerate(v_names)"))
+    if okv and lp is not None:
+        it, tg = lp.iter, lp.target
+        if isinstance(it, ast.Call) and A.call_name(it) == "enumerate" and len(it.args) == 1 and isinstance(tg, ast.Tuple) and len(tg.elts) == 2:
+            it, tg = it.args[0], tg.elts[1]
+        src = A.unpack_source(it.id, lp) if isinstance(it, ast.Name) else None
+        okv = isinstance(tg, ast.Name) and tg.id == "name" and src is not None and A.call_name(src[0]) == "validate_poly_trend" and src[1] == 1
+    else:
+        okv = False
     ctx.check(R, sv or fl, "default prior of v_i", okv, "out_pars[name] = %s" % (A.unparse(sv.value)[:100] if sv is not None else "missing"), key="l:v")
 
 
@@ -318,43 +325,87 @@ def _draw_list(pl):
     return None, None
 
 
+def _selection_nnf(cond, kname, flow, at, fn):
+    """NNF of the selection condition with `k in W` unfolded through the set algebra that builds W"""
+    def rec(t, neg):
+        if isinstance(t, ast.UnaryOp) and isinstance(t.op, ast.Not):
+            return rec(t.operand, not neg)
+        if isinstance(t, ast.BoolOp):
+            is_and = isinstance(t.op, ast.And) != neg
+            kids = [rec(v, neg) for v in t.values]
+            return A.conj(kids) if is_and else _disj(kids)
+        if isinstance(t, ast.Compare) and len(t.ops) == 1 and isinstance(t.ops[0], (ast.In, ast.NotIn)) and canon(t.left) == kname:
+            E = t.comparators[0]
+            if isinstance(E, ast.Name):
+                E = flow.resolve(E, at=at)
+            return A.membership(t.left, E, neg != isinstance(t.ops[0], ast.NotIn))
+        return A.nnf(t, neg)
+    return rec(cond, False)
+
+
+def _disj(kids):
+    flat = set()
+    for k in kids:
+        if k[0] == "or":
+            flat |= set(k[1])
+        else:
+            flat.add(k)
+    return next(iter(flat)) if len(flat) == 1 else ("or", frozenset(flat))
+
+
+def _sub(node, **kw):
+    """parse a template and substitute $-free placeholders NAME -> AST"""
+    t = parse(node)
+    return A._Subst(kw, False).visit(A.clone(t))
+
+
 def check_sum(ctx):
     R = "C09-SUM"
     ctx.rule(R, "JokerPrior.sample draws exactly the selected variables with one pm.draw(..., random_seed=rng); column `name` of the result is the draw of variable `name` "
                 "in that variable's unit; ln_prior is the sum over ALL drawn variables of pm.logp(par, its own column) (a variable whose log-density cannot be evaluated "
-                "is skipped with a warning - allow-listed, needed for the constant jitter); the selection is the nonlinear names plus, iff generate_linear, the linear and offset names.")
+                "is skipped with a warning - allow-listed, needed for the constant jitter); the selection is the nonlinear names plus, iff generate_linear, the linear and offset names. "
+                "All clauses are stated over the expressions that reach the sinks (local names are irrelevant).")
     fn = ctx.prog.func(PR, "JokerPrior.sample", R)
     flow = A.Flow(fn)
+
+    def I(e, st):
+        return A.inline_temporaries(e, st, fn, depth=8)
     draws = [c for c in A.calls_in(fn) if A.call_name(c) == "pm.draw"]
     if len(draws) != 1:
         ctx.violate(R, fn, "one joint pm.draw", "found %d pm.draw calls: variables drawn separately are no longer jointly distributed (K depends on P, e)" % len(draws), key="draw-count")
         return
     d = draws[0]
-    pl = A.inline_temporaries(d.args[0], A.enclosing_stmt(d), fn)
-    names_src, dsrc = _draw_list(pl)
+    dst = A.enclosing_stmt(d)
+    pl = I(d.args[0], dst)
+    names_src, D = _draw_list(pl)
     ctx.check(R, d, "draws the selected variables in name order", names_src is not None, "draw list `%s`" % A.unparse(pl)[:80], key="draw-list")
     ctx.check(R, d, "draws `size` samples", canon(A.get_arg(d, None, "draws")) == "size", "draws=%s" % A.unparse(A.get_arg(d, None, "draws") or ast.Constant(value=None)), key="draw-size", nontrivial=False)
-    # selection
-    sp = []
-    if dsrc is not None and isinstance(dsrc, ast.Name):
-        ds = A.raw_reaching_def_stmt(dsrc.id, A.enclosing_stmt(d))
-        sp = [ds] if ds is not None else []
-    elif isinstance(dsrc, ast.DictComp):
-        sp = [ast.Assign(targets=[ast.Name(id="_", ctx=ast.Store())], value=dsrc, lineno=d.lineno, col_offset=0)]
-        sp[0]._parent = A.enclosing_stmt(d)
+    if names_src is None:
+        return
+    # ---- selection
+    Dx = D
+    if isinstance(Dx, ast.Name):
+        Dx = flow.resolve(Dx, at=dst)
     oksel = False
-    if len(sp) == 1 and isinstance(sp[0].value, ast.DictComp):
-        dc = sp[0].value
-        cond = dc.generators[0].ifs[0] if dc.generators[0].ifs else None
-        kv = dc.generators[0].target
-        kname = kv.elts[0].id if isinstance(kv, ast.Tuple) else "k"
-        want = A.nnf_of_src("%s in self._nonlinear_equiv_units or ((%s in self._linear_equiv_units or %s in self._v0_offsets_equiv_units) and generate_linear)" % (kname, kname, kname))
-        oksel = cond is not None and A.nnf(cond) == want and canon(dc.generators[0].iter) == canon(parse("self.pars.items()")) and canon(dc.key) == kname \
-            and isinstance(kv, ast.Tuple) and len(kv.elts) == 2 and canon(dc.value) == canon(kv.elts[1])
-    ctx.check(R, d, "selection = nonlinear (+ linear and offsets iff generate_linear)", oksel, "selected variables = %s" % (A.unparse(sp[0].value)[:120] if sp else None), key="selection")
-    # pairing of names and draws: the mapping built by zipping the name list with the draw result
+    why = "selected variables = %s" % A.unparse(Dx)[:120]
+    if isinstance(Dx, ast.DictComp) and len(Dx.generators) == 1 and len(Dx.generators[0].ifs) == 1:
+        g = Dx.generators[0]
+        kv = g.target
+        if isinstance(kv, ast.Tuple) and len(kv.elts) == 2 and all(isinstance(e, ast.Name) for e in kv.elts) and canon(g.iter) == canon(parse("self.pars.items()")) \
+                and canon(Dx.key) == kv.elts[0].id and canon(Dx.value) == kv.elts[1].id:
+            kname = kv.elts[0].id
+            want = A.nnf_of_src("%s in self._nonlinear_equiv_units or ((%s in self._linear_equiv_units or %s in self._v0_offsets_equiv_units) and generate_linear)" % (kname, kname, kname))
+            got = _selection_nnf(g.ifs[0], kname, flow, dst, fn)
+            oksel = A.nnf_equiv(got, want)
+            if not oksel:
+                why = "selection condition `%s` is not equivalent to: nonlinear, or (linear or offset) and generate_linear" % A.unparse(g.ifs[0])[:100]
+    ctx.check(R, d, "selection = nonlinear (+ linear and offsets iff generate_linear)", oksel, why, key="selection")
+    Dcan = canon(D)
+    # ---- pairing of names and draws: the mapping built by zipping the name list with the draw result
+    RAW = None
     okrs = False
     why = "no {name: draw} mapping zipped from the names and the draw result"
+    site = fn
     for dc in [n for n in A.walk_local(fn) if isinstance(n, ast.DictComp) and len(n.generators) == 1]:
         it = dc.generators[0].iter
         if not (isinstance(it, ast.Call) and A.call_name(it) == "zip" and len(it.args) >= 2):
@@ -363,49 +414,111 @@ def check_sum(ctx):
         last = flow.resolve(it.args[-1], at=st)
         if not (isinstance(last, ast.Call) and A.call_name(last) == "pm.draw"):
             continue
-        first = A.inline_temporaries(it.args[0], st, fn)
+        first = I(it.args[0], st)
         tg = dc.generators[0].target
-        okrs = names_src is not None and canon(first) in names_src and isinstance(tg, ast.Tuple) and len(tg.elts) == len(it.args) and not dc.generators[0].ifs \
+        okrs = canon(first) in names_src and isinstance(tg, ast.Tuple) and len(tg.elts) == len(it.args) and not dc.generators[0].ifs \
             and canon(dc.key) == canon(tg.elts[0]) and canon(A.strip_casts(dc.value, any_astype=True)) == canon(tg.elts[-1])
         why = "mapping = %s" % A.unparse(dc)[:110]
-        rs = [st]
+        site = st
+        RAW = I(dc, st)
         break
-    else:
-        rs = []
-    ctx.check(R, rs[0] if rs else fn, "draw i is stored under name i", okrs, why, key="pairing")
-    # logp loop
+    ctx.check(R, site, "draw i is stored under name i", okrs, why, key="pairing")
+    if RAW is None:
+        return
+    RAWcan = canon(RAW)
+
+    def is_raw(e, st):
+        return canon(I(e, st)) == RAWcan
+
+    def is_D(e, st):
+        return canon(I(e, st)) == Dcan or canon(e) == Dcan
+    # ---- logp loop
     lps = [c for c in A.calls_in(fn) if A.call_name(c) == "pm.logp"]
     if len(lps) != 1:
         ctx.violate(R, fn, "ln_prior sums pm.logp terms", "found %d pm.logp calls" % len(lps), key="logp-count")
         return
     lc = lps[0]
     loop = A.enclosing(lc, (ast.For,))
-    okloop = loop is not None and canon(loop.iter) in (canon(parse("sub_pars.values()")), canon(parse("par_list"))) and isinstance(loop.target, ast.Name)
-    ctx.check(R, loop or lc, "log-density loop runs over every drawn variable", okloop, "loop is `for %s in %s`" % (A.unparse(loop.target), A.unparse(loop.iter)) if loop is not None else "not in a loop", key="logp-loop")
-    if loop is not None and isinstance(loop.target, ast.Name):
-        pv = loop.target.id
-        ctx.check(R, lc, "each term is pm.logp(par, raw_samples[par.name])", canon(lc.args[0]) == pv and canon(lc.args[1]) == canon(parse("raw_samples[%s.name]" % pv)),
-                  "term is `%s`" % A.unparse(lc)[:80], key="logp-term")
+    pv = kv_ = None
+    okloop = False
+    if loop is not None:
+        it = I(loop.iter, loop)
+        if isinstance(loop.target, ast.Name):
+            pv = loop.target.id
+            okloop = canon(it) == canon(pl) or (isinstance(it, ast.Call) and A.last_attr(it) == "values" and not it.args and is_D(it.func.value, loop)) \
+                or (isinstance(it, ast.Call) and A.call_name(it) == "list" and len(it.args) == 1 and isinstance(it.args[0], ast.Call) and A.last_attr(it.args[0]) == "values" and is_D(it.args[0].func.value, loop))
+        elif isinstance(loop.target, ast.Tuple) and len(loop.target.elts) == 2 and all(isinstance(e, ast.Name) for e in loop.target.elts):
+            kv_, pv = loop.target.elts[0].id, loop.target.elts[1].id
+            okloop = isinstance(it, ast.Call) and A.last_attr(it) == "items" and not it.args and is_D(it.func.value, loop)
+    ctx.check(R, loop or lc, "log-density loop runs over every drawn variable", okloop, "loop is `for %s in %s`" % (A.unparse(loop.target), A.unparse(loop.iter)[:90]) if loop is not None else "not in a loop", key="logp-loop")
+    acc_name = None
+    if loop is not None and pv is not None:
+        lst = A.enclosing_stmt(lc)
+        a1 = lc.args[1] if len(lc.args) > 1 else None
+        okterm = canon(lc.args[0]) == pv and isinstance(a1, ast.Subscript) and is_raw(a1.value, lst) and canon(a1.slice) in ([canon(parse("%s.name" % pv))] + ([kv_] if kv_ else []))
+        ctx.check(R, lc, "each term is pm.logp(par, <its own column>)", bool(okterm), "term is `%s`" % A.unparse(lc)[:80], key="logp-term")
         # nothing before the try may skip a variable
         tr = A.enclosing(lc, (ast.Try,))
         first = tr if tr is not None else A.enclosing_stmt(lc)
-        blk = A.block_of(first)
         pre = loop.body[:loop.body.index(first)] if first in loop.body else loop.body
-        skips = [x for s in pre for x in A.walk_local(s) if isinstance(x, (ast.Continue, ast.Break))]
+        skips = [x for s_ in pre for x in A.walk_local(s_) if isinstance(x, (ast.Continue, ast.Break))]
         nested = first not in loop.body
         ctx.check(R, loop, "no variable is excluded from the sum up front", not skips and not nested,
                   "an earlier `continue`/condition skips some variables (their log-density is dropped although they are drawn)", key="logp-skip")
         app = [c for c in A.calls_in(loop) if A.last_attr(c) == "append"]
-        ctx.check(R, loop, "every evaluated term is accumulated", len(app) == 1 and not A.guards_of(app[0], stop=loop), "append sites: %d" % len(app), key="logp-append", nontrivial=False)
-    sm = [s for s in A.walk_local(fn) if isinstance(s, ast.Assign) and canon(s.targets[0]) == "log_prior"]
-    oks = len(sm) == 1 and canon(sm[0].value) == canon(parse("np.sum(logp, axis=0)"))
-    ctx.check(R, sm[0] if sm else fn, "ln_prior = sum of the terms over variables", oks, "log_prior = %s" % (A.unparse(sm[0].value) if sm else None), key="sum")
-    st = [s for s in A.walk_local(fn) if isinstance(s, ast.Assign) and isinstance(s.targets[0], ast.Subscript) and canon(s.targets[0].value) == "prior_samples"]
-    cols = [s for s in st if canon(s.targets[0].slice) == "name"]
-    okc = len(cols) == 1 and canon(A.inline_temporaries(cols[0].value, cols[0], fn, only={"unit", "p"})) == canon(parse("np.atleast_1d(raw_samples[name]) * getattr(sub_pars[name], xu.UNIT_ATTR_NAME, u.one)"))
-    ctx.check(R, cols[0] if cols else fn, "column `name` = its own draw in its own unit", okc, "column store: %s" % (A.unparse(cols[0].value)[:100] if cols else None), key="column")
-    lpcol = [s for s in st if A.str_const(s.targets[0].slice) == "ln_prior"]
-    ctx.check(R, lpcol[0] if lpcol else fn, "ln_prior column = that sum, under return_logprobs", len(lpcol) == 1 and canon(lpcol[0].value) == "log_prior", "ln_prior = %s" % (A.unparse(lpcol[0].value) if lpcol else None), key="lpcol", nontrivial=False)
+        okapp = len(app) == 1 and not A.guards_of(app[0], stop=loop) and isinstance(app[0].func.value, ast.Name)
+        if okapp:
+            acc_name = app[0].func.value.id
+            v = flow.resolve(app[0].args[0], at=A.enclosing_stmt(app[0]))
+            okapp = any(x is lc or (isinstance(x, ast.Call) and A.call_name(x) == "pm.logp") for x in ast.walk(v))
+        ctx.check(R, loop, "every evaluated term is accumulated", okapp, "append sites: %d" % len(app), key="logp-append", nontrivial=False)
+    # ---- the result table
+    tbl = None
+    st_all = [s_ for s_ in A.walk_local(fn) if isinstance(s_, ast.Assign) and isinstance(s_.targets[0], ast.Subscript) and isinstance(s_.targets[0].value, ast.Name)]
+    rets = flow.returns
+    tname = canon(rets[0][1].value) if len(rets) == 1 and isinstance(rets[0][1].value, ast.Name) else "prior_samples"
+    st = [s_ for s_ in st_all if s_.targets[0].value.id == tname]
+    lpcol = [s_ for s_ in st if A.str_const(s_.targets[0].slice) == "ln_prior"]
+    oks = False
+    whys = "no ln_prior column"
+    if len(lpcol) == 1:
+        v = I(lpcol[0].value, lpcol[0])
+        if isinstance(v, ast.Name):
+            defs = [s_ for s_ in A.walk_local(fn) if isinstance(s_, ast.Assign) and isinstance(s_.targets[0], ast.Name) and s_.targets[0].id == v.id]
+            if len(defs) == 1 and A.dominates(loop, defs[0]) if loop is not None else False:
+                v = I(defs[0].value, defs[0])
+        oks = acc_name is not None and canon(v) in (canon(parse("%s.sum(axis=0)" % acc_name)), canon(parse("%s.sum(0)" % acc_name)), canon(parse("sum(%s)" % acc_name)))
+        whys = "ln_prior = %s" % A.unparse(v)[:80]
+    ctx.check(R, lpcol[0] if lpcol else fn, "ln_prior = sum of the terms over variables", oks, whys, key="sum")
+    g = [(canon(t), pol) for t, pol in A.guards_of(lpcol[0])] if lpcol else []
+    ctx.check(R, lpcol[0] if lpcol else fn, "ln_prior column stored under return_logprobs", len(lpcol) == 1 and ("return_logprobs", True) in g, "ln_prior store guarded by %s" % g, key="lpcol", nontrivial=False)
+    cols = [s_ for s_ in st if not A.str_const(s_.targets[0].slice) and A.enclosing(s_, (ast.For,)) is not None]
+    okc = False
+    whyc = "no per-name column store"
+    if len(cols) == 1:
+        c = cols[0]
+        lp = A.enclosing(c, (ast.For,))
+        it = I(lp.iter, lp)
+        nm = pvar = None
+        if isinstance(lp.target, ast.Name) and canon(it) in names_src:
+            nm = lp.target.id
+        elif isinstance(lp.target, ast.Tuple) and len(lp.target.elts) == 2 and all(isinstance(e, ast.Name) for e in lp.target.elts) \
+                and isinstance(it, ast.Call) and A.last_attr(it) == "items" and not it.args and is_D(it.func.value, lp):
+            nm, pvar = lp.target.elts[0].id, lp.target.elts[1].id
+        v = I(c.value, c)
+        whyc = "column store: %s" % A.unparse(c.value)[:100]
+        if nm is not None and canon(c.targets[0].slice) == nm and isinstance(v, ast.BinOp) and isinstance(v.op, ast.Mult):
+            for val, unit in ((v.left, v.right), (v.right, v.left)):
+                okv = isinstance(val, ast.Call) and A.call_name(val) in ("np.atleast_1d", "np.asarray", "np.array") and len(val.args) == 1 and isinstance(val.args[0], ast.Subscript) \
+                    and canon(val.args[0].slice) == nm and canon(val.args[0].value) == RAWcan
+                oku = isinstance(unit, ast.Call) and A.call_name(unit) == "getattr" and len(unit.args) == 3 and canon(unit.args[1]) == canon(parse("xu.UNIT_ATTR_NAME")) \
+                    and canon(unit.args[2]) == canon(parse("u.one"))
+                if oku:
+                    src = unit.args[0]
+                    oku = (pvar is not None and canon(src) == pvar) or (isinstance(src, ast.Subscript) and canon(src.slice) == nm and canon(src.value) in (Dcan, canon(parse("self.pars"))))
+                if okv and oku:
+                    okc = True
+    ctx.check(R, cols[0] if cols else fn, "column `name` = its own draw in its own unit", okc, whyc, key="column")
     # parents: a variable whose distribution depends on other drawn variables must be evaluated at those rows' values
     R2 = "C09-PARENTS"
     ctx.rule(R2, "a log-density term of a variable whose distribution parameters are other drawn variables (the default K prior depends on P and e) is evaluated with those "
